@@ -34,8 +34,10 @@ contract("xdoctest.doctest_part:DoctestPart.check",
 
 
 # ------------------------------------------------------------------------ C18: displayed source
-contract("xdoctest.utils.util_str:indent", params={"text": "str", "prefix": "str"}, returns="str", trusted=True, log=False,
-         note="used only when orig_lines is None")
+contract("xdoctest.utils.util_str:indent", params={"text": "str", "prefix": "str"}, returns="str", log=False, modifies=[],
+         ensures=[("prefix-every-line", "result == prefix + text.replace('\\n', '\\n' + prefix)")],
+         opts={"native": False, "functional": "prefix + text.replace('\\n', '\\n' + prefix)"},
+         note="prefix + text with the prefix inserted after every newline")
 contract("xdoctest.utils.util_str:add_line_numbers", params={"source": "list[str]", "start": "int", "n_digits": "Optional[int]"},
          returns="list[str]", trusted=True, log=False, note="numbered variants are not under contract yet")
 contract("xdoctest.utils.util_str:highlight_code", params={"text": "str", "lexer_name": "str"}, returns="str", trusted=True, log=False)
@@ -45,12 +47,14 @@ contract("xdoctest.doctest_part:DoctestPart.format_part",
          params={"self": "DoctestPart", "linenos": "bool", "want": "bool", "startline": "int", "n_digits": "Optional[int]",
                  "colored": "bool", "partnos": "bool", "prefix": "bool"},
          returns="str",
-         requires=[("plain-display", "not linenos and not colored and not partnos and prefix"),
-                   ("prompt-lines-kept", "self.orig_lines is not None and len(self.orig_lines) > 0"),
-                   ("plain-lines", "S.plain_lines(self.orig_lines) and implies(self.want_lines is not None, S.plain_lines(self.want_lines))")],
+         requires=[("plain-display", "not linenos and not colored and not partnos"),
+                   ("prompt-lines-kept", "implies(prefix, self.orig_lines is not None and len(self.orig_lines) > 0)"),
+                   ("plain-lines", "implies(prefix, S.plain_lines(self.orig_lines)) and "
+                                   "implies(want and self.want_lines is not None, S.plain_lines(self.want_lines))")],
          modifies=[],
-         ensures=[("source-then-want", "result == ('\\n'.join(self.orig_lines + self.want_lines) if (want and " + _HW + ") "
-                                       "else '\\n'.join(self.orig_lines))")],
+         ensures=[("source-then-want", "implies(prefix, result == ('\\n'.join(self.orig_lines + self.want_lines) if (want and " + _HW + ") "
+                                       "else '\\n'.join(self.orig_lines)))"),
+                  ("bare-source", "implies(not prefix and not want, result == '\\n'.join('\\n'.join(self.exec_lines).splitlines()))")],
          loops={0: LoopSpec(header="want_text.splitlines()", types={"want_lines": "list[str]"},
                             invariants=[("wants-so-far", "want_lines == (self.want_lines[:_i0] if want else [])")])},
          props=["C18", "C19"], opts={"native": False},
